@@ -66,6 +66,61 @@ def check(m, ss, tree):
     return None, d
 
 
+_TOOLDIR = None
+
+
+def tool_outputs(m, mt, srcs, ss):
+    """the difference as the tools hand it out: `phil --diff master user...` (cli.main) and, for fully typed masters, the
+    parameter index (get_diff, save_diff); each must be the text of M.fetch_diff(...)"""
+    global _TOOLDIR
+    import contextlib
+    import io
+    import os
+    import sys
+    if _TOOLDIR is None:
+        import atexit
+        import shutil
+        import tempfile
+        _TOOLDIR = tempfile.mkdtemp(prefix="verif-c08-", dir="/var/tmp")
+        atexit.register(shutil.rmtree, _TOOLDIR, True)
+    try:
+        want = m.fetch_diff(sources=ss).as_str()
+    except (RuntimeError, freephil.Sorry):
+        return None
+    names = [os.path.join(_TOOLDIR, "master.params")] + [os.path.join(_TOOLDIR, "user%d.params" % i) for i in range(len(srcs))]
+    for fn, text in zip(names, [mt] + list(srcs)):
+        with open(fn, "w") as f:
+            f.write(text)
+    from freephil import cli
+    buf = io.StringIO()
+    argv = sys.argv
+    try:
+        sys.argv = ["phil", "--diff"] + names
+        with contextlib.redirect_stdout(buf):
+            cli.main()
+    except BaseException as e:
+        return "phil --diff raised %s: %s" % (type(e).__name__, str(e)[:80])
+    finally:
+        sys.argv = argv
+    if len(names) >= 2 and buf.getvalue() != want:
+        return "phil --diff prints %r, fetch_diff of the same files is %r" % (buf.getvalue()[:80], want[:80])
+    try:
+        from freephil.interface import index
+        with contextlib.redirect_stdout(io.StringIO()):
+            idx = index(master_phil=m, working_phil=m.fetch(sources=ss))
+    except (RuntimeError, freephil.Sorry):
+        return None      # the index wants every parameter typed
+    w = m.fetch(sources=ss)
+    wantw = m.fetch_diff(source=w).as_str()
+    if idx.get_diff().as_str() != wantw:
+        return "index.get_diff() differs from M.fetch_diff(W)"
+    out = os.path.join(_TOOLDIR, "saved.params")
+    idx.save_diff(file_name=out)
+    if open(out).read() != wantw:
+        return "index.save_diff() wrote %r, M.fetch_diff(W) is %r" % (open(out).read()[:80], wantw[:80])
+    return None
+
+
 def relists_master_instance(tree, srcs):
     """finding class D10: a source repeats a further master occurrence of a multiple definition"""
     for n in tree:
@@ -117,6 +172,9 @@ def run(ctx):
         m = freephil.parse(input_string=mt)
         ss = [freephil.parse(input_string=s) for s in srcs]
         f, d = check(m, ss, tree)
+        if f is None and i % 8 == 0 and srcs:
+            f = tool_outputs(m, mt, srcs, ss)
+            ctx.count("tool_outputs")
         ctx.case((mt, tuple(srcs)), nontrivial=d is not None and d.as_str() != "")
         isnested = _fetch.has_nested_multiple(tree)
         ctx.count("nested_multiples" if isnested else "plain")
